@@ -30,10 +30,12 @@ def be(v, n):
   return [(v >> (8 * (n - 1 - i))) & 0xff for i in range(n)]
 
 
-def h_history(ctx, plan, pool):
+def h_history(ctx, plan, pool, table_cap=None):
   env.get_core()
   of = ctx.pox('pox.openflow.libopenflow_01'); swm = ctx.pox('pox.datapaths.switch'); pkt = ctx.pox('pox.lib.packet')
-  sw = swm.SoftwareSwitch(dpid=1, ports=4, miss_send_len=128, max_buffers=pool)
+  # table_cap: a flow table that holds so few entries that the flow_mods of the history are refused with ALL_TABLES_FULL - a flow_mod that
+  # names a buffer uses that buffer all the same (the packet goes through the given actions, the slot is freed)
+  sw = swm.SoftwareSwitch(dpid=1, ports=4, miss_send_len=128, max_buffers=pool, **({} if table_cap is None else {'max_entries': table_cap}))
   sent = []
   class Conn:
     def send(c, msg): sent.append(msg)
@@ -136,6 +138,10 @@ def h_history(ctx, plan, pool):
           ctx.witness('stale')
           ctx.check('stale/bogus id emits nothing', len(outs) == no)
       ctx.check('no packet-in from packet_out/flow_mod', all(not isinstance(m, of.ofp_packet_in) for m in sent[nb:]))
+      if op == 'F' and table_cap == 0:
+        ctx.witness('table-full')
+        ctx.check('a flow_mod refused because the table is full is answered with FLOW_MOD_FAILED / ALL_TABLES_FULL',
+                  any(isinstance(m, of.ofp_error) and m.type == 3 and m.code == 0 for m in sent[nb:]))
     elif op == 'S':
       miss_len = ctx.int('miss%d' % i, 0, L + 2)
       rx(of.ofp_set_config(miss_send_len=miss_len, flags=0))
@@ -152,7 +158,10 @@ def obligations(tier):
   plans = PLANS_T + (['mmmPP', 'mcPmF', 'mPmPm', 'SmcPF', 'mmFPm', 'cmPPm'] if thorough else [])
   pools = [0, 1, 2, 3] + ([4] if thorough else [])
   cases = [dict(plan=p, pool=k) for p in plans for k in pools]
+  full = [dict(plan=p, pool=2, table_cap=0) for p in (['mF', 'mmFF', 'mFmF'] + (['mFPm', 'mmFPF'] if thorough else []))]
   BOUNDS[tier] = dict(histories=plans, pool_sizes=pools, frame_bytes=L, legend="m=table miss, c=hit on a send-to-controller flow (symbolic max_len), "
                       "P=packet_out(symbolic buffer id 0..5 or none+data; output or empty action list), F=flow_mod(symbolic buffer id or none; output or empty action list), S=set_config(symbolic miss_send_len)")
   return [Obligation('O1_history', h_history, cases, witnesses=('done', 'buffered', 'pool-full', 'released', 'stale', 'dropped'), max_decisions=20000,
-                     desc='buffer pool vs reference over symbolic histories')]
+                     desc='buffer pool vs reference over symbolic histories'),
+          Obligation('O2_table_full', h_history, full, witnesses=('done', 'table-full', 'released'), max_decisions=20000,
+                     desc='the same histories on a switch whose flow table is full: refused flow_mods still use the buffer they name')]
